@@ -10,6 +10,7 @@ CONSTANTS
   Focus = "ids"
   MaxOps = 10
   MaxProbes = 0
+  SetLevels = {}
 INIT GInit
 NEXT GNext
 INVARIANT InvSessionRequired
